@@ -413,6 +413,11 @@ func (e *Exec) loopHead(fr *frame, st *State, li *loopInfo, c *Contract, setVari
 		if cl.Kind != "invariant" || cl.GenFn == "" {
 			continue
 		}
+		if cl.Assumed {
+			// an assumed loop fact: taken for granted at the loop head, never checked (trusted base)
+			e.trusted(fmt.Sprintf("assumed fact at loop %d of %s: %s", li.ord, shortKey(c.Key), oneLine(cl.Expr)))
+			continue
+		}
 		args, ok := e.clauseArgs(fr, st, cl, li)
 		if !ok {
 			continue
@@ -544,6 +549,9 @@ func (e *Exec) backEdge(fr *frame, st *State, li *loopInfo, c *Contract, variant
 			continue
 		}
 		if cl.Kind == "invariant" {
+			if cl.Assumed {
+				continue
+			}
 			e.oblige(st, "inv.preserve", fmt.Sprintf("inv.preserve.%d.%s", li.ord, clauseName(cl, i)), g, where)
 		} else if cl.Kind == "decreases" && vi < len(variants) {
 			v0 := variants[vi]
